@@ -3,7 +3,7 @@
   section's entries must be parsed to (`modelOf`, `modelFrom`), layout of `encodeSection`, the cache invariant,
   single-entry theorems (`cie_miss`, `cie_fetch`, `link_ok`, `fde_miss_df`), the induction over the entry list
   (`loop_ok`, `parseEntries_ok`), and the observation lemmas (`modelOf_core`, `modelOf_table`).
-  Not yet proved: `FdeMissOk` for `.eh_frame` (see Props/C06.lean).
+  `FdeMissOk` for `.eh_frame` is proved in Proofs/CfiEhFde.lean.
 -/
 import PyElf.Spec.CFI
 import PyElf.Spec.DwarfStructs
